@@ -3,6 +3,7 @@ import KamalProxy.Driver.Rollout
 import KamalProxy.Driver.Buffer
 import KamalProxy.Driver.Proxy
 import KamalProxy.Driver.Rewrite
+import KamalProxy.Driver.Cli
 open KamalProxy
 
 /-- one engine = a state type, an initial state and a line step; `reset` starts a new case -/
@@ -29,4 +30,5 @@ def main (args : List String) : IO UInt32 := do
   | ["buffer"] => loop stdin stdout () Driver.Buffer.stepLine (); return 0
   | ["proxy"] => loop stdin stdout ({} : Proxy.World) Driver.Proxy.stepLine {}; return 0
   | ["rewrite"] => loop stdin stdout () Driver.Rewrite.stepLine (); return 0
+  | ["cli"] => loop stdin stdout () Driver.Cli.stepLine (); return 0
   | _ => IO.eprintln "usage: kpmodel <engine>"; return 2
